@@ -71,6 +71,16 @@ def sync_class(world, vp, rel, opkind):
     level = world.level
     if level <= 0:
         return None
+    if level >= 3:
+        # mode F: every access to the shared directory except stat of the fixed layout
+        if opkind == "stat" and not (rel.endswith((".lock", ".bk", ".csv")) or rel == "submitter.lock"):
+            return None
+        if opkind == "mkdir":
+            return None
+        lock = protecting_lock(rel)
+        if lock is not None and (world.rootp + lock) not in vp.holding:
+            world.lock_notes.add(f"{opkind} {rel} without {lock} by {vp.name}")
+        return "all"
     lock = protecting_lock(rel)
     if lock is not None:
         held = (world.rootp + lock) in vp.holding
@@ -399,6 +409,101 @@ def _v_gethostname():
     return vp.host
 
 
+class WriteProxy:
+    """Buffered-writer model for shared text files opened for writing at level >= 2 (DESIGN 1.2):
+    the real open has happened (creation/truncation is visible), the data reaches the file at
+    close(), which is a sync point ("commit")."""
+
+    def __init__(self, f, vp, rel, path):
+        self._f = f
+        self._vp = vp
+        self._rel = rel
+        self._path = path
+        self._buf = []
+        self._n = 0
+        self.closed = False
+        self.name = getattr(f, "name", path)
+        self.mode = getattr(f, "mode", "w")
+        try:
+            self._pos0 = f.tell()
+        except OSError:
+            self._pos0 = 0
+
+    def write(self, s):
+        self._buf.append(s)
+        self._n += len(s)
+        return len(s)
+
+    def writelines(self, lines):
+        for l in lines:
+            self.write(l)
+
+    def tell(self):
+        return self._pos0 + self._n
+
+    def flush(self):
+        pass
+
+    def writable(self):
+        return True
+
+    def readable(self):
+        return False
+
+    def fileno(self):
+        return self._f.fileno()
+
+    def close(self):
+        if self.closed:
+            return
+        self.closed = True
+        vp = self._vp
+        w = vp.world
+        try:
+            if self._buf and not (w.closed or vp.killed):
+                alt = vp.sync(Op("file", f"commit {self._rel}"))
+                _inject(alt, self._path)
+                tls.inhook = getattr(tls, "inhook", 0) + 1
+                try:
+                    self._f.write("".join(self._buf))
+                    self._f.flush()
+                    w.mark_dirty(self._rel)
+                finally:
+                    tls.inhook -= 1
+                w.emit("fcommit", vp=vp, rel=self._rel)
+        finally:
+            self._f.close()
+
+    def __enter__(self):
+        return self
+
+    def __exit__(self, *a):
+        self.close()
+        return False
+
+    def __del__(self):
+        try:
+            self._f.close()
+        except Exception:  # noqa
+            pass
+
+
+def _v_open(file, mode="r", *a, **kw):
+    f = _real_open(file, mode, *a, **kw)
+    vp = getattr(tls, "vproc", None)
+    if vp is None or getattr(tls, "inhook", 0) or vp.world.level < 2:
+        return f
+    if not isinstance(mode, str) or "b" in mode or not any(c in mode for c in "wax"):
+        return f
+    p = _norm(file)
+    if p is None:
+        return f
+    rel = vp.world.rel(p)
+    if rel is None or rel.startswith(("job-stdio/", "job-outputs/")) or rel.endswith(".log"):
+        return f
+    return WriteProxy(f, vp, rel, p)
+
+
 _installed = False
 
 
@@ -414,6 +519,8 @@ def install():
     time.time = _v_time
     socket.gethostname = _v_gethostname
     os.environ = EnvProxy()
+    builtins.open = _v_open
+    io.open = _v_open
     from . import sim
 
     subprocess.Popen = sim.PopenDispatch
